@@ -540,3 +540,86 @@ func fanoutProp(t *rapid.T) {
 	stats.NonTrivial(fmt.Sprintf("B|%s|%d|%d|%v|%v", tr, npub, nsub, rawPub, specs))
 	stats.Sample(doc)
 }
+
+// TestC06StalledSubscriber: a subscriber that stops reading (its pipe back-pressures, its
+// per-pipe queue overflows) must not cost the other subscribers anything: publishing in lock-step
+// with the healthy subscribers, whose queues therefore never overflow, every one of them must
+// receive every publication.
+func TestC06StalledSubscriber(t *testing.T) {
+	stats.ScaledChecks(6, 4, func() {
+		rapid.Check(t, func(t *rapid.T) {
+			pubName := rapid.SampledFrom([]string{"pub", "xpub"}).Draw(t, "pub")
+			tr := rapid.SampledFrom([]string{"inproc", "tcp", "ipc"}).Draw(t, "transport")
+			wq := rapid.SampledFrom([]int{1, 2, 4}).Draw(t, "writeq")
+			nhealthy := rapid.IntRange(1, 3).Draw(t, "healthy")
+			nstalled := rapid.IntRange(1, 2).Draw(t, "stalled")
+			nmsg := rapid.IntRange(20, 150).Draw(t, "nmsg")
+			size := rapid.SampledFrom([]int{10, 100, 5000, 60000}).Draw(t, "size")
+			key := rapid.Uint64().Draw(t, "key")
+			doc := map[string]interface{}{"test": "TestC06StalledSubscriber", "pub": pubName, "transport": tr, "writeq": wq, "healthy": nhealthy, "stalled": nstalled, "nmsg": nmsg, "size": size, "rseed": os.Getenv("VERIF_RSEED")}
+			p := fixture.New(pubName)
+			defer p.Close()
+			if err := p.SetOption(mangos.OptionWriteQLen, wq); err != nil {
+				t.Fatalf("harness: %v", err)
+			}
+			pe := fixture.Hook(p)
+			addr, _, err := fixture.Listen(p, tr)
+			if err != nil {
+				t.Skip("port busy")
+			}
+			// stalled subscribers: virtual-transport pipes that never take data
+			for i := 0; i < nstalled; i++ {
+				ep := vt.New()
+				defer ep.Forget()
+				bp := ep.NewPipe()
+				bp.SetMode(vt.ModeBlock, nil)
+				defer bp.Close()
+				ep.SetDial(func(n int) (*vt.Pipe, error) {
+					if n == 0 {
+						return bp, nil
+					}
+					return nil, mangos.ErrConnRefused
+				})
+				if err := p.DialOptions(ep.Addr, map[string]interface{}{mangos.OptionDialAsynch: true, mangos.OptionReconnectTime: time.Hour}); err != nil {
+					t.Fatalf("harness: %v", err)
+				}
+				if !pe.WaitAttached(i+1, 3*time.Second) {
+					t.Fatalf("harness: stalled pipe not attached")
+				}
+			}
+			var subs []mangos.Socket
+			for i := 0; i < nhealthy; i++ {
+				s := fixture.New("sub")
+				defer s.Close()
+				_ = s.SetOption(mangos.OptionSubscribe, "")
+				_ = s.SetOption(mangos.OptionRecvDeadline, 5*time.Second)
+				se := fixture.Hook(s)
+				if _, err := fixture.Dial(s, addr); err != nil {
+					t.Fatalf("harness: %v", err)
+				}
+				if !se.WaitAttached(1, 5*time.Second) || !pe.WaitAttached(nstalled+i+1, 5*time.Second) {
+					t.Fatalf("harness: attach timeout")
+				}
+				subs = append(subs, s)
+			}
+			for i := 0; i < nmsg; i++ {
+				body := append([]byte(fmt.Sprintf("%06d|", i)), fixture.Payload(key+uint64(i), size)...)
+				if err := p.Send(body); err != nil {
+					stats.Fail(t, "C06:stalled-send-error", doc, "publish %d: %v", i, err)
+					return
+				}
+				for si, s := range subs {
+					got, err := s.Recv()
+					if err != nil || !bytes.Equal(got, body) {
+						stats.Fail(t, "C06:stalled-subscriber-affects-others", doc, "%s over %s, write queue %d: healthy subscriber %d did not receive publication %d (%v; got %d bytes) although only the %d stalled subscriber(s) had a full queue", pubName, tr, wq, si, i, err, len(got), nstalled)
+						return
+					}
+				}
+			}
+			stats.Eval()
+			stats.Class("stalled_subscriber:" + tr)
+			stats.NonTrivial(fmt.Sprintf("S|%s|%s|%d|%d|%d|%d|%d", pubName, tr, wq, nhealthy, nstalled, nmsg, size))
+			stats.Sample(doc)
+		})
+	})
+}
